@@ -1473,6 +1473,9 @@ impl TypeChecker {
                         elaboration_kind: "unit definition",
                     })?;
 
+                // A unit can only be defined in terms of a quantity
+                self.enforce_dtype(&type_deduced, expr.full_span())?;
+
                 for (name, _) in decorator::name_and_aliases(identifier, decorators) {
                     self.env.add(
                         name.to_compact_string(),
